@@ -175,9 +175,10 @@ func (d *Deadline) Expired() bool           { return d != nil && time.Now().Afte
 // journal: one slot file per worker; the case about to run is written before it runs.
 
 type Journal struct {
-	dir string
-	mu  sync.Mutex
-	fs  map[int]*os.File
+	dir  string
+	mu   sync.Mutex
+	fs   map[int]*os.File
+	skip map[string]bool
 }
 
 var TheJournal *Journal
@@ -187,7 +188,36 @@ func OpenJournal(dir string) *Journal {
 		return nil
 	}
 	os.MkdirAll(dir, 0o755)
-	return &Journal{dir: dir, fs: map[int]*os.File{}}
+	j := &Journal{dir: dir, fs: map[int]*os.File{}, skip: map[string]bool{}}
+	if sf := os.Getenv("VERIF_SKIP"); sf != "" {
+		if b, err := os.ReadFile(sf); err == nil {
+			var cases []json.RawMessage
+			if json.Unmarshal(b, &cases) == nil {
+				for _, c := range cases {
+					j.skip[canon(c)] = true
+				}
+			}
+		}
+	}
+	return j
+}
+
+func canon(raw []byte) string {
+	var v interface{}
+	if json.Unmarshal(raw, &v) != nil {
+		return string(raw)
+	}
+	b, _ := json.Marshal(v)
+	return string(b)
+}
+
+// Skip reports whether case c was reported as process-killing by an earlier attempt and must not be run again.
+func (j *Journal) Skip(c interface{}) bool {
+	if j == nil || len(j.skip) == 0 {
+		return false
+	}
+	raw, _ := json.Marshal(c)
+	return j.skip[canon(raw)]
 }
 
 // Begin records that worker slot is about to execute case c of check.
